@@ -548,6 +548,19 @@ func (h *history) insert(lit string) {
 			}
 		}
 	}
+	if _, ok := h.present[c]; !ok && strings.HasPrefix(h.cfg.spec, "comp ") && strings.HasSuffix(h.cfg.spec, ",r") {
+		// a trailing field without terminator: the codec is inside the contract as long as no stored key starts another
+		codec := schemaCodec{strings.Split(strings.Fields(h.cfg.spec)[1], ",")}
+		tk, _ := codec.Transform(lit)
+		for _, p := range h.order {
+			ptk, _ := codec.Transform(p)
+			if bytes.HasPrefix(tk, ptk) || bytes.HasPrefix(ptk, tk) {
+				h.skipped++
+				h.s.tr.stats["raw-tail-proviso-skips"]++
+				return
+			}
+		}
+	}
 	if _, ok := h.present[c]; !ok && h.cfg.alpha {
 		// byte-string keys are stored with a 0x00 terminator; the contract (known finding D3) is that no stored key
 		// followed by 0x00 starts another stored key – automatic for keys without 0x00, checked for the others
@@ -650,7 +663,7 @@ func (h *history) alignedRange() (string, string, bool) {
 		cut := 1 + r.Intn(len(fields)-1)
 		lo, hi := append([]string{}, parts...), append([]string{}, parts...)
 		for i := cut; i < len(fields); i++ {
-			if fields[i] == "s" {
+			if fields[i] == "s" || fields[i] == "r" {
 				lo[i], hi[i] = "-", "ffff"
 				continue
 			}
@@ -958,6 +971,24 @@ func (h *history) run() {
 	r := h.r
 	ops := h.cfg.ops
 	if len(h.order) == 0 {
+		if (h.cfg.alpha || h.cfg.collName != "") && h.r.Intn(2) == 0 {
+			// the empty string as the very first key of a tree, before the tree has seen anything else
+			h.s.exec("get", h.id, "-")
+			h.insert("-")
+			h.s.exec("get", h.id, "-")
+			h.insert(h.genKey())
+			h.s.exec("get", h.id, "-")
+			h.s.exec("min", h.id)
+			h.s.exec("seq", h.id, "all", "0", "1")
+			h.s.exec("size", h.id)
+			h.s.exec("dump", h.id)
+			h.remove("-")
+			h.s.exec("get", h.id, "-")
+			for len(h.order) > 0 {
+				h.remove(h.order[0])
+			}
+			h.s.tr.stats["empty-key-first"]++
+		}
 		h.singletonDance()
 		if h.cfg.alpha && h.r.Intn(2) == 0 {
 			for len(h.order) > 0 {
@@ -1112,7 +1143,7 @@ func fanKeys(spec string, r *rand.Rand) func(b int) string {
 		baseParts := strings.Split(us[0].next(r), ",")
 		// vary the first numeric field's low byte
 		for i, fd := range fields {
-			if fd == "s" || fd == "f32" || fd == "f64" {
+			if fd == "s" || fd == "r" || fd == "f32" || fd == "f64" {
 				continue
 			}
 			w := widthOf(fd)
@@ -1230,10 +1261,43 @@ func (h *history) classDance(key func(b int) string) {
 	h.s.tr.stats[fmt.Sprintf("class-dances-%d", capN)]++
 }
 
+// twinOf: a key that shares with `lit` everything up to and including the byte the fan varies, and more, but not all –
+// inserted next to `lit` it turns the fan node's child into an inner node with a compressed path of its own.
+func twinOf(spec, lit string) (string, bool) {
+	f := strings.Fields(spec)
+	switch f[0] {
+	case "alpha", "coll":
+		if lit == "-" {
+			return "", false
+		}
+		return hexLit(append(unhex(lit), "tw2"...)), true
+	case "comp":
+		fields := strings.Split(f[1], ",")
+		parts := strings.Split(lit, ",")
+		i := len(parts) - 1
+		switch fd := fields[i]; fd {
+		case "s", "r":
+			parts[i] = hexLit(append(unhex(parts[i]), "tw2"...))
+		case "f32", "f64":
+			return "", false
+		default:
+			if i == 0 {
+				return "", false
+			}
+			w := widthOf(fd)
+			parts[i] = bitsLit(parseBits(parts[i], w)^1, w)
+		}
+		return strings.Join(parts, ","), true
+	}
+	return "", false
+}
+
 // runFan drives one inner node through every size class upward and downward, keeping the boundary bytes
 // among the survivors so that every grow/shrink conversion has to carry them over.
 func (h *history) runFan(key func(b int) string) {
 	r := h.r
+	var in []int
+	inSet := map[int]bool{}
 	check := func() {
 		h.s.exec("dump", h.id)
 		h.s.exec("size", h.id)
@@ -1254,6 +1318,34 @@ func (h *history) runFan(key func(b int) string) {
 			p := unhex(key(1))
 			h.s.exec("seq", h.id, "prefix", hexLit(p[:len(p)-1-r.Intn(len(p))%len(p)]), "0", "1")
 		}
+		// a few children become inner nodes for a moment (a twin next to the member), with ranges that lie entirely
+		// below them: the scan has to carry the right depth through a node of this class
+		tw := 0
+		for _, m := range in {
+			if tw >= 4 || !inSet[m] || h.s.dead[h.id] {
+				break
+			}
+			twin, ok := twinOf(h.cfg.spec, key(m))
+			if !ok || r.Intn(3) != 0 {
+				continue
+			}
+			if _, present := h.present[h.canonKey(twin)]; present {
+				continue
+			}
+			tw++
+			h.insert(twin)
+			h.s.exec("get", h.id, twin)
+			if h.cfg.alpha || strings.HasPrefix(h.cfg.spec, "comp") {
+				h.s.exec("seq", h.id, "range", key(m), twin, "0", "1")
+				h.s.exec("seq", h.id, "range", twin, key(m), "2", "2")
+			}
+			if h.cfg.alpha {
+				h.s.exec("seq", h.id, "prefix", key(m), "0", "1")
+			}
+			h.s.exec("seq", h.id, "back", "3", "1")
+			h.remove(twin)
+			h.s.tr.stats["fan-twins"]++
+		}
 		// updates through the node as it is now: an overwrite (nothing but the value changes), a delete and the
 		// same key again
 		if len(h.order) > 0 {
@@ -1269,8 +1361,6 @@ func (h *history) runFan(key func(b int) string) {
 	}
 	target := pick(r, []int{256, 256, 60, 49, 48, 17})
 	perm := r.Perm(256)
-	var in []int
-	inSet := map[int]bool{}
 	add := func(b int) {
 		if !inSet[b] && !h.s.dead[h.id] {
 			inSet[b] = true
@@ -1445,7 +1535,7 @@ func (h *history) probeSweep() {
 				b := unhex(part)
 				for i := 0; i < len(b) && n < 48; i++ {
 					mp := append([]string{}, parts...)
-					mp[fi] = hexLit(flip(b, i, fields[fi] == "s"))
+					mp[fi] = hexLit(flip(b, i, fields[fi] == "s" || fields[fi] == "r"))
 					if fields[fi] == "f32" || fields[fi] == "f64" {
 						mp[fi] = canonNum(fields[fi], mp[fi])
 					}
@@ -1522,9 +1612,11 @@ func histCfgsFor(family string, r *rand.Rand) []histCfg {
 			if i == 0 {
 				fs = pick(r, [][]string{{"u8", "u64", "u64"}, {"u8", "i64", "u64"}, {"u8", "u32", "i64", "u32"}})
 			} else if i == 1 {
-				fs = pick(r, [][]string{{"u16", "s"}, {"i32", "u8", "s"}, {"u64", "s"}, {"i8", "s"}})
+				fs = pick(r, [][]string{{"i32", "u8", "r"}, {"i8", "r"}, {"u32", "r"}, {"u16", "r"}}) // a tail without terminator
 			} else if i == 2 {
 				fs = pick(r, [][]string{{"i8", "u16"}, {"i8", "i64", "u32"}, {"i8", "u8", "s"}})
+			} else if i == 3 {
+				fs = pick(r, [][]string{{"u16", "s"}, {"u64", "s"}, {"i32", "u8", "s"}})
 			}
 			out = append(out, histCfg{spec: "comp " + strings.Join(fs, ","), unis: compUniverses(fs)})
 		}
